@@ -293,6 +293,14 @@ pub fn init_date_prototype(interp: &mut Interpreter) {
     interp.register_method(&proto, "setMinutes", date_set_minutes, 3);
     interp.register_method(&proto, "setSeconds", date_set_seconds, 2);
     interp.register_method(&proto, "setMilliseconds", date_set_milliseconds, 1);
+    // The interpreter's local time zone is UTC: the UTC setters are the same functions
+    interp.register_method(&proto, "setUTCFullYear", date_set_full_year, 3);
+    interp.register_method(&proto, "setUTCMonth", date_set_month, 2);
+    interp.register_method(&proto, "setUTCDate", date_set_date, 1);
+    interp.register_method(&proto, "setUTCHours", date_set_hours, 4);
+    interp.register_method(&proto, "setUTCMinutes", date_set_minutes, 3);
+    interp.register_method(&proto, "setUTCSeconds", date_set_seconds, 2);
+    interp.register_method(&proto, "setUTCMilliseconds", date_set_milliseconds, 1);
 
     // Conversion methods
     interp.register_method(&proto, "toISOString", date_to_iso_string, 0);
